@@ -54,7 +54,7 @@ Proof.
   assert (E1 : str_eqb s_value s_type = false) by reflexivity.
   assert (E2 : str_eqb s_value s_value = true) by reflexivity.
   assert (E3 : str_eqb s_type s_type = true) by reflexivity.
-  cbn [json_unmarshal_at fst snd]. rewrite E1, E2, E3, T. cbn [bind]. reflexivity.
+  cbn [json_unmarshal_at]. unfold json_unmarshal_step. cbn [fst snd]. rewrite E1, E2, E3, T. cbn [bind]. reflexivity.
 Qed.
 
 (* refuted as coded: the shortest decimal text of a whole number held at low precision denotes
